@@ -166,4 +166,7 @@ def main(tier):
         pprog.load_dir(dh)
         chk.units += [u for u in pprog.units if u not in chk.units]
     argswap.rule(pprog, chk, "C12p", file_filter=("src/Variogram/",), floor_n=4)
+    # C12u: a pair whose value is undefined for one variable is skipped for that variable only (shared rule with C05d)
+    import c05_skip
+    c05_skip.rule_d(prog, chk, 2, rule="C12u", only_files=("src/Variogram/",))
     return chk.finish()
